@@ -84,9 +84,15 @@ class Sock(Script):
         self.blocking = flag
 
     def send(self, data):
+        if self.closed:                    # as a real closed socket answers
+            self.send_log.append((bytes(data), "EBADF"))
+            raise oserr(errno.EBADF)
         return self.do_send(data)
 
     def recv(self, bs):
+        if self.closed:
+            self.recv_log.append("EBADF")
+            raise oserr(errno.EBADF)
         return self.do_recv(bs)
 
     def shutdown(self, how):
